@@ -6,6 +6,8 @@ package main
 
 import (
 	"bufio"
+	"crypto/sha256"
+	"encoding/hex"
 	"encoding/json"
 	"errors"
 	"fmt"
@@ -84,6 +86,59 @@ func hexBytes(a string) (string, bool) {
 type okStringer struct{ s string }
 
 func (o okStringer) String() string { return o.s }
+
+// sameEvaluatorStringer re-enters the evaluator that is calling it: the inner call must not disturb the outer one
+type sameEvaluatorStringer struct{ s string }
+
+func (r sameEvaluatorStringer) String() string {
+	if ev := currentEvaluator; ev != nil {
+		currentEvaluator = nil // one level only
+		func() {
+			defer func() { recover() }()
+			// two inner calls on the same evaluator: one on an empty object (comparisons stay undecided), one on the outer object with
+			// this value replaced by its text (decided like the outer call); the order depends on the text
+			if len(r.s)%2 == 1 {
+				ev.Process(currentPlainObject)
+				ev.Process(map[string]interface{}{})
+			} else {
+				ev.Process(map[string]interface{}{})
+				ev.Process(currentPlainObject)
+			}
+		}()
+		currentEvaluator = ev
+	}
+	return r.s
+}
+
+// plainCopy: the object with every sameEvaluatorStringer replaced by its text
+func plainCopy(v interface{}) interface{} {
+	switch t := v.(type) {
+	case map[string]interface{}:
+		if t == nil {
+			return t
+		}
+		c := make(map[string]interface{}, len(t))
+		for k, e := range t {
+			c[k] = plainCopy(e)
+		}
+		return c
+	case sameEvaluatorStringer:
+		return t.s
+	}
+	return v
+}
+
+var currentPlainObject map[string]interface{}
+
+// panics with the library's own sentinel error (and with an error that wraps it)
+type invopPanicStringer struct{ wrapped bool }
+
+func (p invopPanicStringer) String() string {
+	if p.wrapped {
+		panic(fmt.Errorf("inner rule failed: %w", parser.ErrInvalidOperation))
+	}
+	panic(parser.ErrInvalidOperation)
+}
 
 type valueWithPtrString struct{ s string }
 
@@ -240,6 +295,19 @@ func other(tag int) interface{} {
 		return []interface{}{1, map[interface{}]interface{}{(*ptrStringer)(nil): "v"}}
 	case 43:
 		return map[interface{}]interface{}{selfPanicStringer{}: map[interface{}]interface{}{panicStringer{}: 1}}
+	case 44: // lists of objects: a path never steps into a list
+		return []interface{}{map[string]interface{}{"y": 1, "name": "bob", "n": 1, "a": map[string]interface{}{"b": 1}, "primary": true}}
+	case 45:
+		return []map[string]interface{}{{"y": 1, "name": "bob", "n": 1, "primary": true}}
+	case 46: // a sub-slice with spare capacity next to the slice that owns the backing array (an append through the first writes into the second)
+		all := []string{"admin", "ops", "root"}
+		return []interface{}{all[:1], "guest", all}
+	case 47: // a decoded JSON array with nulls in the middle (in-place compaction would move its elements)
+		return []interface{}{7, nil, 9, nil, "a"}
+	case 48: // the library's own error type as a value: its Error() method stores into its Vals
+		return &parser.NestedError{Msg: "m", Err: errors.New("e")}
+	case 49:
+		return []interface{}{nil, "a", nil, "b"}
 	case 33: // a list of strings with capitals (in-place lower-casing would show)
 		return []string{"Admin", "ROOT", "Ops"}
 	case 34:
@@ -259,6 +327,10 @@ func buildVal(x *sexp) (interface{}, error) {
 			return panicStringer{}, nil
 		case "strnilptr":
 			return (*ptrStringer)(nil), nil
+		case "strpanicinvop":
+			return invopPanicStringer{false}, nil
+		case "strpanicinvopw":
+			return invopPanicStringer{true}, nil
 		case "strselfpanic":
 			return selfPanicStringer{}, nil
 		case "nilmap":
@@ -341,6 +413,12 @@ func buildVal(x *sexp) (interface{}, error) {
 			return v, nil
 		}
 		return &v, nil
+	case "strsame": // String() calls Process on the very evaluator that is evaluating it (with another object)
+		s, ok := hexBytes(a)
+		if !ok {
+			return nil, errors.New("bad string")
+		}
+		return sameEvaluatorStringer{s}, nil
 	case "strreent":
 		s, ok := hexBytes(a)
 		if !ok {
@@ -462,6 +540,18 @@ func snapshot(v interface{}) interface{} {
 			return t
 		}
 		c := *t
+		return &c
+	case *parser.NestedError:
+		if t == nil {
+			return t
+		}
+		c := *t
+		if t.Vals != nil {
+			c.Vals = parser.ErrVals{}
+			for k, e := range t.Vals {
+				c.Vals[k] = e
+			}
+		}
 		return &c
 	case *int:
 		c := *t
@@ -633,6 +723,64 @@ func strictAccept(text string) (accept bool, tree parser.IQueryContext) {
 	return true, t
 }
 
+// Other ways of using the generated lexer / parser than "new lexer, listener, new parser, one text":
+// (b) the usual ANTLR order - lexer, token stream and parser are built first, the collecting listeners are attached afterwards;
+// (c) ONE lexer and ONE parser object for all texts of the process, re-armed with SetInputStream / SetTokenStream.
+// Each must accept exactly what strictAccept accepts and read the same tree.
+var (
+	sharedLex    *parser.JsonQueryLexer
+	sharedParser *parser.JsonQueryParser
+	sharedC      *collector
+)
+
+func acceptLateListeners(text string) (accept bool, tree string) {
+	defer func() {
+		if r := recover(); r != nil {
+			accept, tree = false, "panic"
+		}
+	}()
+	lex := parser.NewJsonQueryLexer(antlr.NewInputStream(text))
+	ts := antlr.NewCommonTokenStream(lex, antlr.TokenDefaultChannel)
+	p := parser.NewJsonQueryParser(ts)
+	c := &collector{DefaultErrorListener: antlr.NewDefaultErrorListener()}
+	lex.RemoveErrorListeners()
+	lex.AddErrorListener(c)
+	p.RemoveErrorListeners()
+	p.AddErrorListener(c)
+	t := p.Query()
+	if c.n > 0 || ts.LA(1) != antlr.TokenEOF {
+		return false, ""
+	}
+	return true, treeText(t)
+}
+
+func acceptSharedObjects(text string) (accept bool, tree string) {
+	defer func() {
+		if r := recover(); r != nil {
+			accept, tree = false, "panic"
+			sharedLex, sharedParser = nil, nil
+		}
+	}()
+	if sharedLex == nil {
+		sharedC = &collector{DefaultErrorListener: antlr.NewDefaultErrorListener()}
+		sharedLex = parser.NewJsonQueryLexer(antlr.NewInputStream(text))
+		sharedLex.RemoveErrorListeners()
+		sharedLex.AddErrorListener(sharedC)
+		sharedParser = parser.NewJsonQueryParser(antlr.NewCommonTokenStream(sharedLex, antlr.TokenDefaultChannel))
+		sharedParser.RemoveErrorListeners()
+		sharedParser.AddErrorListener(sharedC)
+	}
+	sharedC.n = 0
+	sharedLex.SetInputStream(antlr.NewInputStream(text))
+	ts := antlr.NewCommonTokenStream(sharedLex, antlr.TokenDefaultChannel)
+	sharedParser.SetTokenStream(ts)
+	t := sharedParser.Query()
+	if sharedC.n > 0 || ts.LA(1) != antlr.TokenEOF {
+		return false, ""
+	}
+	return true, treeText(t)
+}
+
 // evals: deep-equal sub-objects of the input are made ONE shared map value (aliasing)
 var shareEqualMaps bool
 
@@ -669,6 +817,7 @@ func doEval(id string, rule string, objx *sexp) string {
 		}
 	}
 	snap := snapshot(obj)
+	currentPlainObject, _ = plainCopy(obj).(map[string]interface{})
 	escaped := false
 	guard := func(f func()) {
 		defer func() {
@@ -683,7 +832,9 @@ func doEval(id string, rule string, objx *sexp) string {
 	var verdict bool
 	guard(func() { ev, newErr = parser.NewEvaluator(rule) })
 	if ev != nil && newErr == nil {
+		currentEvaluator = ev
 		guard(func() { verdict, perr = ev.Process(obj) })
+		currentEvaluator = nil
 		guard(func() { dbg = ev.LastDebugErr() })
 	} else {
 		perr = newErr
@@ -692,13 +843,10 @@ func doEval(id string, rule string, objx *sexp) string {
 		}
 	}
 	frame1 := same(obj, snap)
-	dbgText := textClass(dbg)
-	errText := textClass(perr)
 	var v2, v3 bool
 	var e2 error
 	guard(func() { v2, e2 = rules.Evaluate(rule, obj) })
 	guard(func() { v3 = parser.Evaluate(rule, obj) })
-	e2Text := textClass(e2)
 	frame2 := same(obj, snap)
 	acc, _ := strictAccept(strings.TrimSpace(rule))
 	// the same rule and object once more, on a new evaluator: outcomes must not depend on map
@@ -709,7 +857,9 @@ func doEval(id string, rule string, objx *sexp) string {
 	var verdict2 bool
 	guard(func() { ev2, newErr2 = parser.NewEvaluator(rule) })
 	if ev2 != nil && newErr2 == nil {
+		currentEvaluator = ev2
 		guard(func() { verdict2, perr2 = ev2.Process(obj) })
+		currentEvaluator = nil
 		guard(func() { dbg2 = ev2.LastDebugErr() })
 		if ev == nil || newErr != nil || verdict2 != verdict || errClass(perr2) != errClass(perr) || dbgClass(dbg2) != dbgClass(dbg) {
 			det = false
@@ -717,9 +867,32 @@ func doEval(id string, rule string, objx *sexp) string {
 	} else if ev != nil && newErr == nil {
 		det = false
 	}
-	return fmt.Sprintf("%s verdict=%s err=%s dbg=%s accept=%s ev3=%s%s%s newerr=%s dbgtext=%s errtext=%s,%s frame=%s escaped=%s det=%s",
+	frame3 := same(obj, snap)
+	// the texts of the errors are produced last: Error() of a diagnostic formats the operand, and a value of the caller that is an
+	// error or a Stringer may change itself in its own method (the library's *NestedError does): that is not a write by Process
+	dbgText := textClass(dbg)
+	errText := textClass(perr)
+	e2Text := textClass(e2)
+	return fmt.Sprintf("%s verdict=%s err=%s dbg=%s accept=%s ev3=%s%s%s newerr=%s dbgtext=%s errtext=%s,%s frame=%s escaped=%s det=%s rerr=%s eh=%s",
 		id, b01(verdict), errClass(perr), dbgClass(dbg), b01(acc), b01(v2), b01(e2 != nil), b01(v3),
-		b01(newErr != nil), dbgText, errText, e2Text, b01(frame1 && frame2 && same(obj, snap)), b01(escaped), b01(det))
+		b01(newErr != nil), dbgText, errText, e2Text, b01(frame1 && frame2 && frame3), b01(escaped), b01(det), errClass(e2), textHash(perr))
+}
+
+// the evaluator whose Process call is running (for the Stringer that calls back into it)
+var currentEvaluator *parser.Evaluator
+
+// a short hash of the text of an error (spelling-independent outcomes have spelling-independent texts)
+func textHash(err error) (h string) {
+	if err == nil {
+		return "-"
+	}
+	defer func() {
+		if r := recover(); r != nil {
+			h = "panic"
+		}
+	}()
+	sum := sha256.Sum256([]byte(err.Error()))
+	return hex.EncodeToString(sum[:6])
 }
 
 func hexOf(s string) string {
@@ -818,12 +991,21 @@ func doSyntax(id, text string) (out string) {
 		toks = append(toks, fmt.Sprintf("%x:%s", t.GetTokenType(), hexOf(t.GetText())))
 	}
 	if c.n > 0 {
-		return id + " lexok=0"
+		accB, _ := acceptLateListeners(text)
+		accC, _ := acceptSharedObjects(text)
+		return id + " lexok=0 modes=" + b01(!accB && !accC)
 	}
 	acc, tree := strictAccept(text)
-	s := id + " lexok=1 toks=" + strings.Join(toks, ",") + " accept=" + b01(acc)
+	tt := ""
 	if acc {
-		s += " tree=" + treeText(tree)
+		tt = treeText(tree)
+	}
+	accB, treeB := acceptLateListeners(text)
+	accC, treeC := acceptSharedObjects(text)
+	modes := accB == acc && accC == acc && treeB == tt && treeC == tt
+	s := id + " lexok=1 toks=" + strings.Join(toks, ",") + " accept=" + b01(acc) + " modes=" + b01(modes)
+	if acc {
+		s += " tree=" + tt
 	}
 	return s
 }
